@@ -207,6 +207,7 @@ func init() {
 	streams["rlimit"] = func(seed int64, idx int) *scenario {
 		return runReaderScenario(seed*1000003+int64(idx), rOpts{mode: "limit", handlers: idx%4 == 0, smallOnly: true})
 	}
+	streams["rfuzz"] = func(seed int64, idx int) *scenario { return runFuzzScenario(seed*1000003 + int64(idx)) }
 	streams["pair"] = func(seed int64, idx int) *scenario { return runPairScenario(seed*1000003 + int64(idx)) }
 	streams["join"] = func(seed int64, idx int) *scenario { return runJoinScenario(seed*1000003 + int64(idx)) }
 	streams["srv"] = func(seed int64, idx int) *scenario { return runServerScenario(seed*1000003+int64(idx), false) }
